@@ -137,8 +137,9 @@ theorem decode_encode (t : List Nat) (h0 : ∀ b ∈ t, b ≠ 0) (hc : noCRLF t 
 
 /-- a sector as a2kit holds it: no-data sectors carry no record, the others a record whose length word is right -/
 def SectorWf (s : Sector) : Prop :=
-  (s.flags &&& NO_DATA_MASK ≠ 0 ∧ s.data = []) ∨
-  (s.flags &&& NO_DATA_MASK = 0 ∧ ∃ l0 l1 body, s.data = l0 :: l1 :: body ∧ unle16 l0 l1 = body.length)
+  s.shift ≤ 6 ∧
+  ((s.flags &&& NO_DATA_MASK ≠ 0 ∧ s.data = []) ∨
+   (s.flags &&& NO_DATA_MASK = 0 ∧ ∃ l0 l1 body, s.data = l0 :: l1 :: body ∧ unle16 l0 l1 = body.length))
 
 theorem readSectors_cons (n : Nat) (s : Sector) (hs : SectorWf s) (rest : List Nat) :
     readSectors (n + 1) (sectorToBytes s ++ rest) =
@@ -146,14 +147,16 @@ theorem readSectors_cons (n : Nat) (s : Sector) (hs : SectorWf s) (rest : List N
       | some (ss, r) => some (canonSector s :: ss, r)
       | none => none := by
   obtain ⟨c, h, i, sh, fl, crc, data⟩ := s
+  obtain ⟨hsh, hs⟩ := hs
+  have hsh' : ¬ sh > 6 := by simp only at hsh; omega
   rcases hs with ⟨hf, hd⟩ | ⟨hf, l0, l1, body, hd, hl⟩
   · simp only at hf hd
     subst hd
-    simp only [sectorToBytes, List.cons_append, List.nil_append, readSectors, if_neg hf, List.append_nil, canonSector]
+    simp only [sectorToBytes, List.cons_append, List.nil_append, readSectors, if_neg hsh', if_neg hf, List.append_nil, canonSector]
     rcases readSectors n rest with _ | ⟨ss, r⟩ <;> rfl
   · simp only at hf hd
     subst hd
-    simp only [sectorToBytes, List.cons_append, List.nil_append, readSectors, if_pos hf, hl]
+    simp only [sectorToBytes, List.cons_append, List.nil_append, readSectors, if_neg hsh', if_pos hf, hl]
     have h1 : ¬ ((body ++ rest).length < body.length) := by simp
     rw [if_neg h1]
     have ht : (body ++ rest).take body.length = body := by simp
@@ -208,6 +211,8 @@ theorem readTracks_all (ts : List Track) (h : ∀ t ∈ ts, TrackWf t) (tail : L
 
 structure ImageWf (x : Image) : Prop where
   hdr : x.hdr.length = 8
+  /-- `from_bytes` refuses an image without tracks -/
+  nonempty : x.tracks ≠ []
   tracks : ∀ t ∈ x.tracks, TrackWf t
   comment : ∀ c, x.comment = some c → c.stamp.length = 6 ∧ (encodeText c.text).length < 65536 ∧
     (∀ b ∈ c.text, b ≠ 0) ∧ noCRLF c.text = true
@@ -272,7 +277,9 @@ theorem td0_fromBytes_toBytes (x : Image) (h : ImageWf x) :
     rw [hdrop2, if_neg hflag, hd12]
     have := readTracks_all x.tracks h.tracks TRAILER (toBytesNormal x).length hf
     rw [this]
-    simp [canon, hc]
+    cases htr : x.tracks with
+    | nil => exact absurd htr h.nonempty
+    | cons t0 ts0 => simp [canon, hc, htr]
   | some c =>
     obtain ⟨hst, hlen16, h0, hcr⟩ := h.comment c hc
     have hb : toBytesNormal x = head10 x ++ (le16 (crc16 0 (head10 x)) ++ (le16 (crc16 0 (commentBody c)) ++
@@ -328,7 +335,9 @@ theorem td0_fromBytes_toBytes (x : Image) (h : ImageWf x) :
     simp only [hcrc, not_true_eq_false, if_false]
     have := readTracks_all x.tracks h.tracks TRAILER (toBytesNormal x).length hf
     rw [this]
-    simp [canon, hc, decode_encode c.text h0 hcr, le16, hmod]
+    cases htr : x.tracks with
+    | nil => exact absurd htr h.nonempty
+    | cons t0 ts0 => simp [canon, hc, htr, decode_encode c.text h0 hcr, le16, hmod]
 
 /-! fixpoint: the object after `to_bytes` / after a re-parse serialises to the same bytes -/
 
@@ -376,11 +385,11 @@ theorem td0_toBytes_canon (x : Image) : toBytesNormal (canon x) = toBytesNormal 
   | some c => simp [canon, hc, commentBody]
 
 /-- what `Sector::pack` builds is a well-formed record (links the codec theorem to the container theorem) -/
-theorem pack_sectorWf (shift : Nat) (hs : shift ≤ 6) (dat rec : List Nat) (h : pack shift dat = some rec)
-    (c hd i crc : Nat) :
-    SectorWf { cyl := c, head := hd, id := i, shift := shift, flags := 0, crc := crc, data := rec } := by
+theorem pack_sectorWf_flags (shift : Nat) (hs : shift ≤ 6) (dat rec : List Nat) (h : pack shift dat = some rec)
+    (c hd i fl crc : Nat) (hfl : fl &&& NO_DATA_MASK = 0) :
+    SectorWf { cyl := c, head := hd, id := i, shift := shift, flags := fl, crc := crc, data := rec } := by
   obtain ⟨k, hk, hk64, hk4096⟩ := secSize_cases shift hs
-  refine Or.inr ⟨by simp, ?_⟩
+  refine ⟨hs, Or.inr ⟨hfl, ?_⟩⟩
   simp only [pack] at h
   by_cases hl : dat.length ≠ secSize shift
   · simp [hl] at h
@@ -402,5 +411,10 @@ theorem pack_sectorWf (shift : Nat) (hs : shift ≤ 6) (dat rec : List Nat) (h :
       refine ⟨_, _, _, rfl, ?_⟩
       simp only [List.length_cons, hl', unle16, hk]
       omega
+
+theorem pack_sectorWf (shift : Nat) (hs : shift ≤ 6) (dat rec : List Nat) (h : pack shift dat = some rec)
+    (c hd i crc : Nat) :
+    SectorWf { cyl := c, head := hd, id := i, shift := shift, flags := 0, crc := crc, data := rec } :=
+  pack_sectorWf_flags shift hs dat rec h c hd i 0 crc (by simp)
 
 end A2Verif.Lemmas.C09Td0
